@@ -338,10 +338,10 @@ inline void runOne(Env& E, Input& I, int kind, bool onZt, int li, int fi, Result
     if (bang != std::string::npos) problems += "document is not a well-formed value: " + R.obs.substr(bang, 60) + "; ";
     E.out1.clear();
     size_t n1 = serializeJson(doc, E.out1);
-    if (n1 != E.out1.size() || n1 != measureJson(doc)) problems += "serializeJson count/measure mismatch; ";
+    if (n1 != E.out1.size()) problems += "serializeJson returned a count different from the bytes written; ";
     E.out2.clear();
     size_t n2 = serializeMsgPack(doc, E.out2);
-    if (n2 != E.out2.size() || n2 != measureMsgPack(doc)) problems += "serializeMsgPack count/measure mismatch; ";
+    if (n2 != E.out2.size()) problems += "serializeMsgPack returned a count different from the bytes written; ";
     if (n1 == 0 || n2 == 0) problems += "serialization of the document produced nothing; ";
     doc.clear();
     if (!doc.isNull() || doc.size() != 0) problems += "document not null after clear(); ";
@@ -461,6 +461,7 @@ struct Evaluator {
     if (rich) {
       I.s = bytes;
       I.as.assignBytes(bytes.data(), n);
+      if (I.as.length() != n || memcmp(I.as.c_str(), bytes.data(), n) != 0) E.C.fail("harness", "the Arduino String stub does not hold the bytes");
       I.iss.clear();
       I.iss.str(bytes);
       if (!mp) {
